@@ -111,8 +111,10 @@ func verifC19Last(acct string) byte {
 // mentions(t, account) as 0/1, branch-free in the symbolic content
 func (t *verifC19Tx) mentions(last byte) uint64 {
 	h := verifC19B(t.key1 == last) | verifC19B(t.key2 == last)
-	if t.lookup && t.loaded == last {
-		h = 1
+	for _, l := range t.loadedAll() {
+		if l == last {
+			h = 1
+		}
 	}
 	return h
 }
